@@ -415,6 +415,7 @@ func main() {
 	for i := 0; i < n; i++ {
 		scs = append(scs, genScenario(base.ForkN("s", i), i))
 	}
+	sim.GetIDGenerator() // akita initialises it lazily without synchronisation
 	vlib.Parallel(len(scs), 0, func(i int) { runScenario(c, scs[i]) })
 	c.Finish(vlib.FinishOpts{
 		Rule: "scenario = (configuration, timed stream of reads / full writes / masked writes, each inside one 64-byte line); " +
